@@ -833,14 +833,14 @@ pub fn gen(id: &str, tier: &str, rng: &mut Rng, emit: &mut dyn FnMut(Op)) {
             let n = if tier == "thorough" { 60000 } else { 4000 };
             fuzz(&pool, n, rng, emit);
         }
-        "C01" => gen_c01(tier, rng, emit),
-        "C02" => gen_c02(tier, rng, emit),
-        "C03" => gen_c03(tier, rng, emit),
-        "C04" => gen_c04(tier, rng, emit),
-        "C05" => gen_c05(tier, rng, emit),
-        "C06" => gen_c06(tier, rng, emit),
-        "C18" => gen_c18(tier, rng, emit),
-        "C19" => gen_c19(tier, rng, emit),
+        "C01" => with_oracle_fuzz(tier, rng, emit, &gen_c01),
+        "C02" => with_oracle_fuzz(tier, rng, emit, &gen_c02),
+        "C03" => with_oracle_fuzz(tier, rng, emit, &gen_c03),
+        "C04" => with_oracle_fuzz(tier, rng, emit, &gen_c04),
+        "C05" => with_oracle_fuzz(tier, rng, emit, &gen_c05),
+        "C06" => with_oracle_fuzz(tier, rng, emit, &gen_c06),
+        "C18" => with_oracle_fuzz(tier, rng, emit, &gen_c18),
+        "C19" => with_oracle_fuzz(tier, rng, emit, &gen_c19),
         _ => {
             eprintln!("pat: unknown property {}", id);
             std::process::exit(2);
